@@ -103,6 +103,44 @@ static void rpoint(vt::Rng& g, double& lat, double& lon) {
 //   Reverse(xi, yi) independent, compared with the documented construction, then Forward -> closure in the plane
 // Lengths are nm at WGS84 scale (multiplied by 6378137 / a); azimuth differences 1e-12 degree; scale differences 1e-15.
 static ll poleq(double lat) { return uq(90 - fabs(lat), 1e-9L); }
+// bit-for-bit equality of output tuples (NaN payloads included)
+static bool sameb(std::initializer_list<double> a, std::initializer_list<double> b) {
+  if (a.size() != b.size()) return false;
+  auto i = a.begin(), j = b.begin(); for (; i != a.end(); ++i, ++j) if (vt::bits(*i) != vt::bits(*j)) return false;
+  return true;
+}
+// Agreement laws over the whole family of entry points of one projection class.  For one set of inputs every member of the family
+// is executed: the overloads without azi / rk, an object that has served other centres before (kept alive across records), and
+// - when the ellipsoid is WGS84 - the object made by the default constructor argument.  Logged: whether each reproduces the general
+// call on a fresh object bit for bit.
+template<class P> struct Family {
+  map<pair<int, int>, P*> lived; P dflt;
+  P& old(const Earth& E) { auto k = make_pair(E.fi, E.ai); auto it = lived.find(k); if (it == lived.end()) it = lived.insert(make_pair(k, new P(E.g))).first; return *it->second; }
+};
+template<class P> static void family_fwd(Family<P>& F, const Earth& E, const P& fresh, double lat0, double lon0, double lat, double lon,
+                                         double x, double y, double azi, double rk, const string& out, bool& ov, bool& lived, bool& dflt) {
+  double xs = vt::sentinel(1), ys = vt::sentinel(2);
+  string o1 = guarded([&] { fresh.Forward(lat0, lon0, lat, lon, xs, ys); });
+  ov = o1 == out && sameb({x, y}, {xs, ys});
+  double a = vt::sentinel(1), b = vt::sentinel(2), c = vt::sentinel(3), d = vt::sentinel(4);
+  string o2 = guarded([&] { F.old(E).Forward(lat0, lon0, lat, lon, a, b, c, d); });
+  lived = o2 == out && sameb({x, y, azi, rk}, {a, b, c, d});
+  a = vt::sentinel(1); b = vt::sentinel(2); c = vt::sentinel(3); d = vt::sentinel(4);
+  string o3 = guarded([&] { F.dflt.Forward(lat0, lon0, lat, lon, a, b, c, d); });
+  dflt = o3 == out && sameb({x, y, azi, rk}, {a, b, c, d});
+}
+template<class P> static void family_rev(Family<P>& F, const Earth& E, const P& fresh, double lat0, double lon0, double x, double y,
+                                         double lat, double lon, double azi, double rk, const string& out, bool& ov, bool& lived, bool& dflt) {
+  double ls = 0, os = 0;
+  string o1 = guarded([&] { fresh.Reverse(lat0, lon0, x, y, ls, os); });
+  ov = o1 == out && sameb({lat, lon}, {ls, os});
+  double a = 0, b = 0, c = 0, d = 0;
+  string o2 = guarded([&] { F.old(E).Reverse(lat0, lon0, x, y, a, b, c, d); });
+  lived = o2 == out && sameb({lat, lon, azi, rk}, {a, b, c, d});
+  a = b = c = d = 0;
+  string o3 = guarded([&] { F.dflt.Reverse(lat0, lon0, x, y, a, b, c, d); });
+  dflt = o3 == out && sameb({lat, lon, azi, rk}, {a, b, c, d});
+}
 
 // AzimuthalEquidistant
 static void rec_az(vt::Rng& g, ll id) {
@@ -118,6 +156,8 @@ static void rec_az(vt::Rng& g, ll id) {
   bool centre = lat == Math::LatFix(lat0) && angdiff(lon0, lon) == 0;
   double x = vt::sentinel(1), y = vt::sentinel(2), azi = vt::sentinel(3), rk = vt::sentinel(4);
   string out = guarded([&] { P.Forward(lat0, lon0, lat, lon, x, y, azi, rk); });
+  static Family<AzimuthalEquidistant> FAM; bool ov[3], lv[3], df[3];
+  family_fwd(FAM, E, P, lat0, lon0, lat, lon, x, y, azi, rk, out, ov[0], lv[0], df[0]);
   double s12, a1, a2, m12, M12, M21, S12;
   E.g.GenInverse(lat0, lon0, lat, lon, Geodesic::ALL, s12, a1, a2, m12, M12, M21, S12);
   LD half = PIL * E.minr;
@@ -131,6 +171,7 @@ static void rec_az(vt::Rng& g, ll id) {
   // Forward then Reverse; the Reverse outputs against Direct(centre, atan2(x, y), hypot(x, y))
   double la = 0, lo = 0, az2 = 0, rk2 = 0;
   string rout = guarded([&] { P.Reverse(lat0, lon0, x, y, la, lo, az2, rk2); });
+  family_rev(FAM, E, P, lat0, lon0, x, y, la, lo, az2, rk2, rout, ov[1], lv[1], df[1]);
   double sr_ = hypot(x, y), lar, lor, azr, mr; E.g.Direct(lat0, lon0, Math::atan2d(x, y), sr_, lar, lor, azr, mr);
   r.str("rout", rout).i("rt", uq(chordll(E.a, E.f, lat, lon, la, lo) * E.sc, 1e-9L)).b("rng", fabs(la) <= 90 && fabs(lo) <= 180);
   r.i("rdpos", uq(chordll(E.a, E.f, lar, lor, la, lo) * E.sc, 1e-9L)).i("rdazi", uq(angdiff(az2, azr), 1e-12L));
@@ -142,12 +183,15 @@ static void rec_az(vt::Rng& g, ll id) {
   int w2 = int(g.range(0, 15)); if (w2 == 0) { xi = 0; yi = 0; } if (w2 == 1) { xi = 0; yi = -0.0; } if (w2 == 2) { xi = -0.0; yi = 0; }
   double lb = 0, lob = 0, azb = 0, rkb = 0, xo = 0, yo = 0, azo = 0, rko = 0;
   string r2 = guarded([&] { P.Reverse(lat0, lon0, xi, yi, lb, lob, azb, rkb); P.Forward(lat0, lon0, lb, lob, xo, yo, azo, rko); });
+  family_rev(FAM, E, P, lat0, lon0, xi, yi, lb, lob, azb, rkb, r2, ov[2], lv[2], df[2]);
   double si = hypot(xi, yi), lbr, lobr, azbr, mbr; E.g.Direct(lat0, lon0, Math::atan2d(xi, yi), si, lbr, lobr, azbr, mbr);
   r.str("r2", r2).i("rr", uq((LD)si / half, 1e-6L)).i("plb", poleq(lbr));
   r.i("r2dpos", uq(chordll(E.a, E.f, lbr, lobr, lb, lob) * E.sc, 1e-9L)).i("r2dazi", uq(angdiff(azb, azbr), 1e-12L));
   r.i("r2drk", uq((LD)rkb - (si > 0 ? (LD)mbr / (LD)si : 1.0L), 1e-15L)).b("r2rng", fabs(lb) <= 90 && fabs(lob) <= 180);
   { LD ex = (LD)xo - xi, ey = (LD)yo - yi, ux = sind_(th), uy = cosd_(th);      // radial 1:1, transverse scaled by rk (displacement on the ellipsoid)
     r.i("dxy", uq(hypotl(ex * ux + ey * uy, (ex * uy - ey * ux) * (LD)rkb) * E.sc, 1e-9L)); }
+  r.b("ovl", ov[0] && ov[1] && ov[2]).b("lived", lv[0] && lv[1] && lv[2]).b("dflt", df[0] && df[1] && df[2]);
+  r.b("insp", vt::bits(P.EquatorialRadius()) == vt::bits(E.a) && vt::bits(P.Flattening()) == vt::bits(E.f));
   r.str("kf", "none"); (void) centre;
   r.emit();
 }
@@ -166,6 +210,8 @@ static void rec_gn(vt::Rng& g, ll id) {
   if (w == 8) { lat = Math::LatFix(lat0); lon = lon0; }
   double x = vt::sentinel(1), y = vt::sentinel(2), azi = vt::sentinel(3), rk = vt::sentinel(4);
   string out = guarded([&] { P.Forward(lat0, lon0, lat, lon, x, y, azi, rk); });
+  static Family<Gnomonic> FAM; bool ov[3] = {true, true, true}, lv[3] = {true, true, true}, df[3] = {true, true, true};
+  family_fwd(FAM, E, P, lat0, lon0, lat, lon, x, y, azi, rk, out, ov[0], lv[0], df[0]);
   double s12, a1, a2, m12, M12, M21, S12;
   E.g.GenInverse(lat0, lon0, lat, lon, Geodesic::ALL, s12, a1, a2, m12, M12, M21, S12);
   Rec r; r.str("e", "gn").i("id", id).i("fi", E.fi).i("ai", E.ai).str("out", out).i("pl0", poleq(lat0)).i("pl", poleq(lat));
@@ -178,6 +224,7 @@ static void rec_gn(vt::Rng& g, ll id) {
   double la = 0, lo = 0, az2 = 0, rk2 = 0; string rout = "none";
   if (out == "ok" && !std::isnan(x) && !std::isnan(y)) {
     rout = guarded([&] { P.Reverse(lat0, lon0, x, y, la, lo, az2, rk2); });
+    family_rev(FAM, E, P, lat0, lon0, x, y, la, lo, az2, rk2, rout, ov[1], lv[1], df[1]);
     r.i("rt", uq(chordll(E.a, E.f, lat, lon, la, lo) * E.sc, 1e-9L)).b("rtnan", std::isnan(la) || std::isnan(lo) || std::isnan(az2) || std::isnan(rk2));
     r.b("rng", std::isnan(la) || (fabs(la) <= 90 && fabs(lo) <= 180));
   } else r.i("rt", -1).b("rtnan", false).b("rng", true);
@@ -189,6 +236,9 @@ static void rec_gn(vt::Rng& g, ll id) {
   if (g.range(0, 15) == 0) { xi = 0; yi = g.coin() ? 0.0 : -0.0; rad = 0; }
   double lb = 0, lob = 0, azb = 0, rkb = 0, xo = 0, yo = 0, azo = 0, rko = 0;
   string r2 = guarded([&] { P.Reverse(lat0, lon0, xi, yi, lb, lob, azb, rkb); P.Forward(lat0, lon0, lb, lob, xo, yo, azo, rko); });
+  family_rev(FAM, E, P, lat0, lon0, xi, yi, lb, lob, azb, rkb, r2, ov[2], lv[2], df[2]);
+  r.b("ovl", ov[0] && ov[1] && ov[2]).b("lived", lv[0] && lv[1] && lv[2]).b("dflt", df[0] && df[1] && df[2]);
+  r.b("insp", vt::bits(P.EquatorialRadius()) == vt::bits(E.a) && vt::bits(P.Flattening()) == vt::bits(E.f));
   r.str("r2", r2).i("rr", uq((LD)rad / E.a, 1e-3L)).b("r2nan", std::isnan(lb) || std::isnan(lob) || std::isnan(azb) || std::isnan(rkb));
   r.b("r2allnan", std::isnan(lb) && std::isnan(lob) && std::isnan(azb) && std::isnan(rkb)).i("plb", poleq(lb)).b("r2rng", std::isnan(lb) || (fabs(lb) <= 90 && fabs(lob) <= 180));
   // the point returned by Reverse lies on the geodesic leaving the centre with azimuth atan2(x, y); its azimuth and scale are those of
@@ -200,6 +250,24 @@ static void rec_gn(vt::Rng& g, ll id) {
 }
 
 // CassiniSoldner
+// The object is stateful (Reset).  Every record builds its object through a HISTORY chosen by the seed - constructor form x a
+// sequence of earlier origins x the final Reset(lat0, lon0) - and all observations are made on that object; `fresh` logs whether
+// every output is bit-identical to the one of the freshly constructed CassiniSoldner(lat0, lon0, earth).
+//   hist = [constructor form (0: CassiniSoldner(earth) + Reset, 1: CassiniSoldner(lat, lon, earth)), codes of the earlier origins]
+//   codes: 1 same meridian, other latitude; 2 same latitude, other meridian; 3 identical; 4 a pole on the same meridian;
+//          5 unrelated; 6 same latitude, longitude + 360; 7 same latitude, opposite meridian
+struct CsOut { string out; double v[4]; };
+static CsOut cs_fwd(const CassiniSoldner& P, double lat, double lon) {
+  CsOut o; for (int i = 0; i < 4; ++i) o.v[i] = vt::sentinel(i + 1);
+  o.out = guarded([&] { P.Forward(lat, lon, o.v[0], o.v[1], o.v[2], o.v[3]); }); return o;
+}
+static CsOut cs_rev(const CassiniSoldner& P, double x, double y) {
+  CsOut o; for (int i = 0; i < 4; ++i) o.v[i] = vt::sentinel(i + 1);
+  o.out = guarded([&] { P.Reverse(x, y, o.v[0], o.v[1], o.v[2], o.v[3]); }); return o;
+}
+static bool cs_same(const CsOut& a, const CsOut& b) { return a.out == b.out && sameb({a.v[0], a.v[1], a.v[2], a.v[3]}, {b.v[0], b.v[1], b.v[2], b.v[3]}); }
+static bool cs_untouched(const CsOut& a) { return a.out == "ok" && vt::is_sentinel(a.v[0], 1) && vt::is_sentinel(a.v[1], 2) && vt::is_sentinel(a.v[2], 3) && vt::is_sentinel(a.v[3], 4); }
+
 static void rec_cs(vt::Rng& g, ll id) {
   Earth E(int(g.range(0, NF - 1)), int(g.range(0, NA - 1)));
   double lat0, lon0, lat, lon; rpoint(g, lat0, lon0); rpoint(g, lat, lon);
@@ -207,12 +275,42 @@ static void rec_cs(vt::Rng& g, ll id) {
   if (w == 0) lon = lon0; if (w == 1) lon = lon0 + 180; if (w == 2) { lat = Math::LatFix(lat0); lon = lon0; }
   if (w == 3) lon = lon0 + (g.coin() ? 1 : -1) * (90 + g.uni(-1, 1) * pow(10.0, g.uni(-9, 0)));
   if (w == 4) lon = lon0 + g.uni(-1, 1) * pow(10.0, g.uni(-9, 0));
-  CassiniSoldner P(lat0, lon0, E.g);
+  // the history
+  vector<ll> hist; int form = int(g.range(0, 1)), nh = int(g.range(0, 3)); if (g.range(0, 3) == 0) nh = 0;
+  hist.push_back(form);
+  vector<pair<double, double> > origins;
+  for (int i = 0; i < nh; ++i) {
+    int code = int(g.range(1, 7)); double la = lat0, lo = lon0;
+    if (code == 1) la = g.uni(-90, 90); if (code == 2) lo = g.uni(-180, 180); if (code == 4) la = g.coin() ? 90 : -90;
+    if (code == 5) rpoint(g, la, lo); if (code == 6) lo = lon0 + (g.coin() ? 360 : -360); if (code == 7) lo = lon0 + 180;
+    hist.push_back(code); origins.push_back(make_pair(la, lo));
+  }
+  origins.push_back(make_pair(lat0, lon0));
+  CassiniSoldner* Pp = nullptr; size_t first = 0;
+  string hout = guarded([&] {
+    if (form == 0) Pp = new CassiniSoldner(E.g); else { Pp = new CassiniSoldner(origins[0].first, origins[0].second, E.g); first = 1; }
+    for (size_t i = first; i < origins.size(); ++i) Pp->Reset(origins[i].first, origins[i].second);
+  });
+  if (!Pp) Pp = new CassiniSoldner(lat0, lon0, E.g);
+  const CassiniSoldner& P = *Pp;
+  CassiniSoldner F(lat0, lon0, E.g);                       // the freshly constructed object
+  CassiniSoldner U(E.g);                                   // "uninitialized": Forward and Reverse do nothing
   double x = vt::sentinel(1), y = vt::sentinel(2), azi = vt::sentinel(3), rk = vt::sentinel(4);
   string out = guarded([&] { P.Forward(lat, lon, x, y, azi, rk); });
+  bool fresh = hout == "ok" && cs_same(cs_fwd(P, lat, lon), cs_fwd(F, lat, lon)) && P.Init() == F.Init()
+    && sameb({P.LatitudeOrigin(), P.LongitudeOrigin(), P.EquatorialRadius(), P.Flattening()}, {F.LatitudeOrigin(), F.LongitudeOrigin(), F.EquatorialRadius(), F.Flattening()});
+  bool uninit = !U.Init() && cs_untouched(cs_fwd(U, lat, lon));
+  // the overloads without azi / rk, and the object made with the default ellipsoid argument
+  bool ovl = true, dflt = true;
+  { double xs = vt::sentinel(1), ys = vt::sentinel(2); string o1 = guarded([&] { P.Forward(lat, lon, xs, ys); }); ovl = ovl && o1 == out && sameb({x, y}, {xs, ys}); }
+  static CassiniSoldner* D0 = new CassiniSoldner(); CassiniSoldner D1(lat0, lon0);
+  guarded([&] { D0->Reset(lat0, lon0); });
+  dflt = dflt && cs_same(cs_fwd(*D0, lat, lon), cs_fwd(P, lat, lon)) && cs_same(cs_fwd(D1, lat, lon), cs_fwd(P, lat, lon));
   LD Q = E.ell.QuarterMeridian();
   Rec r; r.str("e", "cs").i("id", id).i("fi", E.fi).i("ai", E.ai).str("out", out).b("init", P.Init()).i("pl0", poleq(lat0)).i("pl", poleq(lat));
+  r.li("hist", hist);
   r.b("org", vt::bits(P.LatitudeOrigin()) == vt::bits(Math::LatFix(lat0)) && fabs(angdiff(P.LongitudeOrigin(), lon0)) == 0);
+  r.b("insp", vt::bits(P.EquatorialRadius()) == vt::bits(E.a) && vt::bits(P.Flattening()) == vt::bits(E.f));
   // the documented construction: north along the central meridian by y, turn clockwise 90 degrees, go x
   double lat1, lon1, azm; E.g.Direct(lat0, lon0, 0.0, y, lat1, lon1, azm);
   double lat2, lon2, azd, M12d, M21d; E.g.Direct(lat1, lon1, azm + 90, x, lat2, lon2, azd, M12d, M21d);
@@ -223,6 +321,9 @@ static void rec_cs(vt::Rng& g, ll id) {
   r.i("dx", uq(((LD)fabs(x) - s) * E.sc, 1e-9L)).i("dperp", uq((LD)s * cosd_(angdiff(azm, aA)) * E.sc, 1e-9L));
   // azimuth of the easting direction and reciprocal northing scale: those of the perpendicular geodesic at the point
   r.i("dazi", uq((LD)fabs(m12) * sind_(angdiff(azi, azd)) * E.sc, 1e-9L)).i("dazia", uq(angdiff(azi, azd), 1e-12L)).i("drk", uq((LD)rk - M12d, 1e-15L));
+  // on the (full) central meridian itself, x = 0 exactly, the easting direction is the heading of the construction turned by 90
+  // degrees and the northing scale is unity
+  r.b("xz", x == 0).i("drk1", uq((LD)rk - 1, 1e-15L));
   r.i("xq", uq((LD)fabs(x) / Q, 1e-6L)).i("yq", uq((LD)fabs(y) / Q, 1e-6L));
   // y is the meridian distance of the foot (Ellipsoid::MeridianDistance, independent code); over a pole when the foot lies
   // on the opposite meridian
@@ -237,6 +338,9 @@ static void rec_cs(vt::Rng& g, ll id) {
   // Forward then Reverse
   double la = 0, lo = 0, az2 = 0, rk2 = 0;
   string rout = guarded([&] { P.Reverse(x, y, la, lo, az2, rk2); });
+  { double ls = 0, os = 0; string o1 = guarded([&] { P.Reverse(x, y, ls, os); }); ovl = ovl && o1 == rout && sameb({la, lo}, {ls, os}); }
+  fresh = fresh && cs_same(cs_rev(P, x, y), cs_rev(F, x, y)); uninit = uninit && cs_untouched(cs_rev(U, x, y));
+  dflt = dflt && cs_same(cs_rev(*D0, x, y), cs_rev(P, x, y)) && cs_same(cs_rev(D1, x, y), cs_rev(P, x, y));
   r.str("rout", rout).i("rt", uq(chordll(E.a, E.f, lat, lon, la, lo) * E.sc, 1e-9L)).b("rng", fabs(la) <= 90 && fabs(lo) <= 180);
   // Reverse for an independent (x, y) against the documented construction, then Forward
   double xi = g.uni(-1.1, 1.1) * double(Q), yi = g.uni(-2, 2) * double(Q);
@@ -244,14 +348,19 @@ static void rec_cs(vt::Rng& g, ll id) {
   if (g.range(0, 9) == 0) xi = 0; if (g.range(0, 9) == 0) yi = 0;
   double lb = 0, lob = 0, azb = 0, rkb = 0, xo = 0, yo = 0, azo = 0, rko = 0;
   string r2 = guarded([&] { P.Reverse(xi, yi, lb, lob, azb, rkb); P.Forward(lb, lob, xo, yo, azo, rko); });
+  { double ls = 0, os = 0; string o1 = guarded([&] { P.Reverse(xi, yi, ls, os); }); ovl = ovl && o1 == r2 && sameb({lb, lob}, {ls, os}); }
+  fresh = fresh && cs_same(cs_rev(P, xi, yi), cs_rev(F, xi, yi)) && cs_same(cs_fwd(P, lb, lob), cs_fwd(F, lb, lob));
   double l1a, l1o, am; E.g.Direct(lat0, lon0, 0.0, yi, l1a, l1o, am);
   double l2a, l2o, a2d, Mr, Mr21; E.g.Direct(l1a, l1o, am + 90, xi, l2a, l2o, a2d, Mr, Mr21);
   r.str("r2", r2).i("rx", uq((LD)fabs(xi) / Q, 1e-6L)).i("ry", uq((LD)fabs(yi) / Q, 1e-6L)).i("plb", poleq(l2a));
   r.i("r2dpos", uq(chordll(E.a, E.f, l2a, l2o, lb, lob) * E.sc, 1e-9L)).i("r2dazi", uq(angdiff(azb, a2d), 1e-12L)).i("r2drk", uq((LD)rkb - Mr, 1e-15L));
+  r.b("rxz", xi == 0).i("r2drk1", uq((LD)rkb - 1, 1e-15L));
   r.b("r2rng", fabs(lb) <= 90 && fabs(lob) <= 180);
   // northing differences are measured on the ellipsoid: dy * rk
   r.i("dxy", uq(hypotl((LD)xo - xi, ((LD)yo - yi) * (LD)rkb) * E.sc, 1e-9L));
+  r.b("fresh", fresh).b("uninit", uninit).b("ovl", ovl).b("dflt", dflt);
   r.emit();
+  delete Pp;
 }
 
 
@@ -263,10 +372,11 @@ struct XE {   // ellipsoid + solver for the intersection laws
 // |f| <= 0.02 with the series solver, larger |f| with exact = true as the documentation prescribes
 static const double XF[] = {1 / 298.257223563, 0, -1 / 298.257223563, 0.01, -0.01, 0.02, -0.02, 0.1, -0.1, 0.2, -0.25};
 static const int NXF = 11;
-static XE* xearth(vt::Rng& g) {
+static XE* xearth(vt::Rng& g, int exact = 0) {      // exact = 1: one of the eccentric ellipsoids that need the exact solver
   static map<pair<int, int>, XE*> cache;
   int fi = int(g.range(0, NXF - 1)); if (g.coin()) fi = 0;
   int ai = int(g.range(0, 2)); if (g.coin()) ai = 0;
+  if (exact) fi = int(g.range(7, NXF - 1));
   auto key = make_pair(fi, ai);
   auto it = cache.find(key);
   if (it != cache.end()) return it->second;
@@ -278,15 +388,16 @@ struct Ln { double lat, lon, azi; };
 typedef Intersect::Point Pt;
 // an intersection candidate: separation of the two points (nm at WGS84 scale) and |sin| of the crossing angle there
 struct Hit { ll z; LD sn; bool anti; };
-static Hit hit(const XE& E, const GeodesicLine& lx, const GeodesicLine& ly, double x, double y) {
+static Hit hit_raw(double a, double f, double sc, const GeodesicLine& lx, const GeodesicLine& ly, double x, double y) {
   double la, lo, az, lb, lob, azb; lx.Position(x, la, lo, az); ly.Position(y, lb, lob, azb);
-  Hit h; h.z = uq(chordll(E.a, E.f, la, lo, lb, lob) * E.sc, 1e-9L);
+  Hit h; h.z = uq(chordll(a, f, la, lo, lb, lob) * sc, 1e-9L);
   // crossing angle from the two headings as unit vectors in space (well defined at the poles too)
   V3 t1 = tangent(la, lo, az), t2 = tangent(lb, lob, azb);
   LD cx = t1.y * t2.z - t1.z * t2.y, cy = t1.z * t2.x - t1.x * t2.z, cz = t1.x * t2.y - t1.y * t2.x;
   h.sn = min((LD)1, sqrtl(cx * cx + cy * cy + cz * cz)); h.anti = t1.x * t2.x + t1.y * t2.y + t1.z * t2.z < 0;
   return h;
 }
+static Hit hit(const XE& E, const GeodesicLine& lx, const GeodesicLine& ly, double x, double y) { return hit_raw(E.a, E.f, E.sc, lx, ly, x, y); }
 static LD l1(double x, double y, double px, double py) { return fabsl((LD)x - px) + fabsl((LD)y - py); }
 static LD l1(const Pt& p, const Pt& q) { return l1(p.first, p.second, q.first, q.second); }
 
@@ -338,16 +449,28 @@ static void put_hit(Rec& r, const XE& E, const Pt& p, const Hit& h, int c) {
   r.i("z", h.z).i("um", ulpq(E, p.first, p.second)).i("sn", uq(h.sn, 1e-9L)).i("anti", h.anti ? 1 : 0).i("c", c);
 }
 
-static void rec_xc(vt::Rng& g, ll id) {
+// tie = true: the origin is placed where the closest intersection is as far away as it can be - around the middle between an
+// intersection and its nearest neighbour (a random point of the L1 ball around the midpoint whose radius is half their distance),
+// in all directions; there several intersections are nearly equidistant and the closest one is far from every starting guess
+static void rec_xc(vt::Rng& g, ll id, bool tie = false) {
   XE& E = *xearth(g); Ln X, Y; string mk = rlines(g, E, X, Y);
   Pt p0(0, 0); if (g.range(0, 2) == 0) p0 = Pt(g.uni(-3, 3) * PIL * E.a, g.uni(-3, 3) * PIL * E.a);
   GeodesicLine lx = E.g.Line(X.lat, X.lon, X.azi, Intersect::LineCaps), ly = E.g.Line(Y.lat, Y.lon, Y.azi, Intersect::LineCaps);
+  if (tie) {
+    vector<Pt> near; guarded([&] { near = E.I.All(lx, ly, 2.6 * double(PIL) * E.a, Pt(g.uni(-2, 2) * PIL * E.a, g.uni(-2, 2) * PIL * E.a)); });
+    if (near.size() >= 2) {
+      const Pt& h1 = near[0]; size_t j = 1; for (size_t i = 2; i < near.size(); ++i) if (l1(near[i], h1) < l1(near[j], h1)) j = i;
+      const Pt& h2 = near[j]; double rad = double(l1(h1, h2)) / 2, u = g.uni(-1, 1), v = (g.coin() ? 1 : -1) * (1 - fabs(u)) * g.uni(0, 1);
+      double eps = g.coin() ? 0 : (g.coin() ? 1 : -1) * pow(10.0, g.uni(-9, 0));     // towards one of the two, from exactly equidistant to clearly closer
+      p0 = Pt((h1.first + h2.first) / 2 + rad * u + eps * (h1.first - h2.first) / 2, (h1.second + h2.second) / 2 + rad * v + eps * (h1.second - h2.second) / 2);
+    }
+  }
   int c = -9; Pt p(0, 0);
   string out = guarded([&] { p = E.I.Closest(lx, ly, p0, &c); });
   int c2 = -9; Pt p2(0, 0);           // same call through the position + azimuth interface
   guarded([&] { p2 = E.I.Closest(X.lat, X.lon, X.azi, Y.lat, Y.lon, Y.azi, p0, &c2); });
   DBG(id, "xc a=%.17g f=%.17g exact=%d X=(%.17g %.17g %.17g) Y=(%.17g %.17g %.17g) p0=(%.17g %.17g) -> x=%.17g y=%.17g c=%d\n", E.a, E.f, (int) E.exact, X.lat, X.lon, X.azi, Y.lat, Y.lon, Y.azi, p0.first, p0.second, p.first, p.second, c);
-  Rec r; r.str("e", "xc").i("id", id).i("fi", E.fi).b("ex", E.exact).str("mk", mk).str("out", out);
+  Rec r; r.str("e", "xc").i("id", id).i("fi", E.fi).b("ex", E.exact).str("mk", mk).str("out", out).b("tie", tie);
   r.b("same", vt::bits(p.first) == vt::bits(p2.first) && vt::bits(p.second) == vt::bits(p2.second) && c == c2);
   r.b("fin", std::isfinite(p.first) && std::isfinite(p.second));
   Hit h = hit(E, lx, ly, p.first, p.second); put_hit(r, E, p, h, c);
@@ -361,10 +484,17 @@ static void rec_xc(vt::Rng& g, ll id) {
   r.emit();
 }
 
-static void rec_xn(vt::Rng& g, ll id) {
-  XE& E = *xearth(g); Ln X; rpoint(g, X.lat, X.lon); if (fabs(X.lat) == 90) X.lat = X.lat > 0 ? 89 : -89;
+// vertex = true: ONE geodesic taken twice (antiparallel twice as often as parallel), mostly started at a vertex (its extreme
+// latitude, heading east or west) or along a meridian, on the eccentric ellipsoids with the exact solver three times out of four:
+// the lines coincide everywhere, and the origin itself is the intersection that Next has to exclude
+static void rec_xn(vt::Rng& g, ll id, bool vertex = false) {
+  XE& E = *xearth(g, vertex && g.range(0, 3) != 0 ? 1 : 0); Ln X; rpoint(g, X.lat, X.lon); if (fabs(X.lat) == 90) X.lat = X.lat > 0 ? 89 : -89;
   X.azi = g.uni(-180, 180); double aziY = g.uni(-180, 180);
   string mk = "gen"; int w = int(g.range(0, 9));
+  if (vertex) {
+    int a = int(g.range(0, 5)); if (a <= 3) X.azi = g.coin() ? 90 : -90; else if (a == 4) X.azi = g.coin() ? 0 : 180;
+    w = g.range(0, 2) == 0 ? 0 : 1;
+  }
   if (w == 3) { X.azi = 90.0 * double(g.range(-2, 2)); } if (w == 4) { X.lat = 0; X.azi = 90; }
   if (w == 0) { aziY = X.azi; mk = "coin+"; } if (w == 1) { aziY = X.azi + 180; mk = "coin-"; }
   if (w == 2) { aziY = X.azi + (g.coin() ? 0 : 180) + (g.coin() ? 1 : -1) * pow(10.0, g.uni(-13, -2)); mk = "near"; }
@@ -381,18 +511,39 @@ static void rec_xn(vt::Rng& g, ll id) {
   Hit h = hit(E, lx, ly, p.first, p.second); put_hit(r, E, p, h, c);
   LD d0 = l1(p, Pt(0, 0));
   r.i("dq", uq(d0 / (PIL * E.a), 1e-6L)).i("d0m", uq(d0 * E.sc, 1.0L));
+  // one geodesic taken twice: |y - cc x| = 0 iff X(x) and Y(y) are the same point of the same branch
+  r.i("lin", mk == "coin+" ? uq(((LD)p.second - p.first) * E.sc, 1e-9L) : mk == "coin-" ? uq(((LD)p.second + p.first) * E.sc, 1e-9L) : -1);
   vector<int> cs; vector<Pt> all;
   string aout = guarded([&] { all = E.I.All(lx, ly, double(d0) + 1000 / E.sc, cs); });
   Pt org(0, 0); Cmp m = cmp_all(E, lx, ly, p, org, all, h.sn, &org);
-  r.str("aout", aout).i("na", m.n).i("nall", (ll) all.size()).i("dminc", m.dminc).i("inallc", m.inallc).str("kf", "none");
+  // known finding (from the inputs only): one geodesic taken twice ANTIPARALLEL, started at a vertex (azimuth exactly +-90), exact solver
+  bool kfc = mk == "coin-" && E.exact && fabs(X.azi) == 90;
+  // second known finding (from the inputs only): the same geodesic twice PARALLEL from a vertex on the most prolate ellipsoid (f = -1/4)
+  bool kfp = mk == "coin+" && E.exact && fabs(X.azi) == 90 && E.f == -0.25;
+  r.str("aout", aout).i("na", m.n).i("nall", (ll) all.size()).i("dminc", m.dminc).i("inallc", m.inallc)
+    .str("kf", kfc ? "int-next-anti-vertex-exact" : kfp ? "int-next-par-vertex-prolate" : "none");
+  kfc = kfc || kfp;
   r.emit();
+  if (kfc) {   // the observations of the same call that the finding does not touch, as a record of their own (no label)
+    Rec o; o.str("e", "xo").i("id", id).i("fi", E.fi).b("ex", E.exact).str("mk", mk).str("out", out);
+    o.b("same", vt::bits(p.first) == vt::bits(p2.first) && vt::bits(p.second) == vt::bits(p2.second) && c == c2).b("fin", std::isfinite(p.first) && std::isfinite(p.second));
+    o.i("z", h.z).i("um", ulpq(E, p.first, p.second)).i("d0m", uq(d0 * E.sc, 1.0L)).str("kf", "none");
+    o.emit();
+  }
 }
 
-static void rec_xs(vt::Rng& g, ll id) {
+// Segments cut from ONE geodesic.  t1, t2 = where Y's end points lie on X's geodesic (as fractions of X, 0 = first, 1 = second end
+// point): the pieces overlap iff [min t, max t] meets [0, 1] in more than a point.  ovq = length of the overlap (negative: of the
+// gap) as a fraction of X in ppm - computed from the inputs.
+//   coin  : end points computed with Direct along an arbitrary geodesic (coincident up to round-off)
+//   coinx : cx = true, pieces of the equator or of one meridian, given by their coordinates: EXACTLY coincident in floating point
+static ll ovlq(double t1, double t2) { double lo = max(0.0, min(t1, t2)), hi = min(1.0, max(t1, t2)); return sq(hi - lo, 1e-6L); }
+static void rec_xs(vt::Rng& g, ll id, bool cx = false) {
   XE& E = *xearth(g);
   double la1, lo1, la2, lo2, lb1, lob1, lb2, lob2;
   rpoint(g, la1, lo1); rpoint(g, lb1, lob1);
-  int w = int(g.range(0, 9));
+  int w = int(g.range(0, 9)); ll ovq = 0; string kf = "none";
+  if (cx) w = 10;
   // segment lengths: mostly short to medium so that many pairs intersect; always well below the half circumference
   auto seg = [&](double lat, double lon, double& latb, double& lonb, double scale) {
     double az = g.uni(-180, 180), d = g.uni(0.001, scale) * PIL * E.minr; E.g.Direct(lat, lon, az, d, latb, lonb); };
@@ -408,7 +559,25 @@ static void rec_xs(vt::Rng& g, ll id) {
     seg(la1, lo1, la2, lo2, 0.5); bool first = g.coin(); lb1 = first ? la1 : la2; lob1 = first ? lo1 : lo2; seg(lb1, lob1, lb2, lob2, 0.5); mk = "corner";
   } else if (w == 8) { // Y is a piece of the geodesic of X (coincident)
     seg(la1, lo1, la2, lo2, 0.4); GeodesicLine t = E.g.InverseLine(la1, lo1, la2, lo2);
-    t.Position(g.uni(-0.5, 1.5) * t.Distance(), lb1, lob1); t.Position(g.uni(-0.5, 1.5) * t.Distance(), lb2, lob2); mk = "coin";
+    double t1 = g.uni(-0.5, 1.5), t2 = g.uni(-0.5, 1.5);
+    t.Position(t1 * t.Distance(), lb1, lob1); t.Position(t2 * t.Distance(), lb2, lob2); mk = "coin"; kf = "int-seg-coincident"; ovq = ovlq(t1, t2);
+  } else if (w == 10) {
+    // the parameter along the closed geodesic: longitude on the equator, latitude on a meridian; X = [u1, u1 + du], Y = u1 + du * [t1, t2]
+    bool eq = g.coin(), integer = g.coin();
+    double ext = eq ? min(1.0, 1 - E.f) * 40 : 40;                       // every piece well below the half circumference / the conjugate distance
+    double du = (g.coin() ? 1 : -1) * g.uni(0.5, ext), u1 = eq ? g.uni(-180, 180) : g.uni(-85, 85);
+    double t1 = g.uni(-1.5, 2.5), t2 = g.uni(-1.5, 2.5); int v = int(g.range(0, 7));
+    if (integer) { u1 = nearbyint(u1); du = (du > 0 ? 8 : -8) * double(g.range(1, int(ext / 8))); t1 = nearbyint(t1 * 8) / 8; t2 = nearbyint(t2 * 8) / 8; }   // integer degrees
+    if (v == 0) t1 = 0; if (v == 1) t1 = 1; if (v == 2) t2 = 0; if (v == 3) t2 = 1; if (v == 4) { t1 = 0; t2 = 1; } if (v == 5) { t1 = 1; t2 = 0; }   // shared end points, identical pieces
+    if (t1 == t2) t2 = t1 + 0.25;
+    if (!eq && (fabs(u1 + du * 2.5) > 89 || fabs(u1 - du * 1.5) > 89)) { u1 = 0; if (fabs(du) > 32) du = du > 0 ? 32 : -32; }        // keep every end point off the poles
+    double u2 = u1 + du, v1 = u1 + du * t1, v2 = u1 + du * t2;
+    if (eq) { la1 = la2 = lb1 = lb2 = 0; lo1 = u1; lo2 = u2; lob1 = v1; lob2 = v2; }
+    else { lo1 = lo2 = lob1 = lob2 = integer ? double(g.range(-180, 180)) : g.uni(-180, 180); la1 = u1; la2 = u2; lb1 = v1; lb2 = v2; }
+    // Y's end points as fractions of X, recomputed from the coordinates actually used
+    t1 = (v1 - u1) / (u2 - u1); t2 = (v2 - u1) / (u2 - u1);
+    // same direction along the parameter <=> parallel
+    mk = ((u2 - u1 > 0) == (v2 - v1 > 0)) ? "coinx+" : "coinx-"; ovq = ovlq(t1, t2);
   } else { seg(la1, lo1, la2, lo2, 0.05); seg(lb1, lob1, lb2, lob2, 0.05); }
   GeodesicLine lx = E.g.InverseLine(la1, lo1, la2, lo2, Intersect::LineCaps), ly = E.g.InverseLine(lb1, lob1, lb2, lob2, Intersect::LineCaps);
   double sx = lx.Distance(), sy = ly.Distance();
@@ -439,7 +608,7 @@ static void rec_xs(vt::Rng& g, ll id) {
     if (i < cs.size() && cs[i]) anyc = 1;
   }
   r.str("aout", aout).i("na", m.n).i("dminc", m.dminc).i("inallc", m.inallc);
-  r.i("insmax", all.empty() ? -2000000000LL : sq(insmax * E.sc, 1e-9L)).i("anyc", anyc).str("kf", mk == "coin" ? "int-seg-coincident" : "none");
+  r.i("insmax", all.empty() ? -2000000000LL : sq(insmax * E.sc, 1e-9L)).i("anyc", anyc).i("ovq", ovq).str("kf", kf);
   r.emit();
 }
 
@@ -539,8 +708,27 @@ template<class NN> static void roundtrips(const NN& t, NN& viaText, NN& viaBin, 
     { istringstream is(save_bin(t)); viaBin.Load(is, true); }
     NN viaOp; { ostringstream os; os << t; istringstream is(os.str()); is >> viaOp; okOp = save_text(viaOp) == txt; }
   });
-  okT = save_text(viaText) == txt && viaText.NumPoints() == t.NumPoints();
+  // the tree reloaded from the TEXT save must be the original bit for bit: its BINARY save equals the binary save of the original
+  // (a text save with too few digits reloads to a tree whose re-saved text is the same text again)
+  okT = save_text(viaText) == txt && viaText.NumPoints() == t.NumPoints() && save_bin(viaText) == save_bin(t);
   okB = save_text(viaBin) == txt && save_bin(viaBin) == save_bin(t);
+}
+
+// The NearestNeighbor object as a state machine (NearestNeighbor.hpp: the constructor with points is Initialize; "Initialize or
+// re-initialize"; "If an exception is thrown, the state of the NearestNeighbor is unchanged" for Initialize and Load; swap).  The
+// state is observed through Save(text).  Logged: whether each history leaves the state a fresh Initialize(pts, dist, bucket) gives.
+template<class NN, class P, class D> static void nn_histories(Rec& r, const NN& t, const vector<P>& pts, const vector<P>& other, const D& d, int bucket) {
+  string want = save_text(t); bool ctor = false, reinit = false, unch = false, swp = false;
+  guarded([&] { NN c(pts, d, bucket); ctor = save_text(c) == want; });
+  guarded([&] {
+    NN h(other, d, 1); h.Initialize(pts, d, bucket); reinit = save_text(h) == want;
+    string o1 = guarded([&] { h.Initialize(other, d, -1); });                       // bucket out of bounds
+    string o2 = guarded([&] { istringstream is("1 0 0 garbage"); h.Load(is, false); });
+    string o3 = guarded([&] { istringstream is(want.substr(0, want.size() / 2)); h.Load(is, false); });   // truncated save
+    unch = o1 == "throw" && o2 == "throw" && (o3 == "throw" || pts.empty()) && (o3 == "throw" ? save_text(h) == want : true);
+    NN e; e.swap(h); swp = save_text(e) == want && save_text(h) == save_text(NN()) && h.NumPoints() == 0;
+  });
+  r.b("hctor", ctor).b("hreinit", reinit).b("hunch", unch).b("hswap", swp);
 }
 
 // ---- lattice instances (integer metrics)
@@ -553,6 +741,7 @@ static void nn_tree_int(int metric, int bucket, const vector<int>& pts) {
   NNI a, b; bool okT = false, okB = false, okOp = false; string rt; roundtrips(t, a, b, okT, okB, okOp, rt);
   r.b("parsed", parsed).raw("hdr", jl(hdr)).raw("tree", jll(nodes)).raw("D", jll(D)).i("npo", t.NumPoints());
   r.str("rt", rt).b("rtt", okT).b("rtb", okB).b("rto", okOp);
+  { vector<int> other(pts.rbegin(), pts.rend()); other.push_back(metric == 1 ? 4 : 2); nn_histories(r, t, pts, other, d, bucket); }
   r.emit();
 }
 
@@ -611,6 +800,7 @@ template<class M> static void nn_random(vt::Rng& g, ll id, const M& d, const vec
       tr.push_back(q); }
     Rec r; r.str("e", "nnt").i("id", id).i("m", 100 + mkind).i("b", bucket).i("np", (ll) n).str("init", init).b("parsed", parsed).raw("hdr", jl(hdr))
       .raw("tree", jll(tr)).raw("D", jll(Dr)).i("npo", t.NumPoints()).i("zero", R(0)).str("rt", rt).b("rtt", okT).b("rtb", okB).b("rto", okOp);
+    { vector<pair<double, double> > other(pts.rbegin(), pts.rend()); other.push_back(make_pair(1.0, 2.0)); nn_histories(r, t, pts, other, d, bucket); }
     r.emit();
   }
   for (auto& q : queries) {
@@ -662,8 +852,18 @@ static void halfq(vector<ll>& o, double x) {
   LD t = nearbyintl(2 * (LD)x); o.push_back((ll) t); o.push_back(sq((LD)x - t / 2, 1e-12L));
 }
 
+// ellipsoids of the lattice intersections: 0 = the unit-degree sphere; 1..4 = the same equatorial radius (one degree of longitude
+// along the equator is one metre on each of them), f = 0.1, -0.1, 0.2, -0.25 with the exact solver
+static const Intersect& lattice_intersect(int ell, const Geodesic** gp = nullptr) {
+  static const double LF[] = {0, 0.1, -0.1, 0.2, -0.25};
+  static Geodesic* G[5] = {nullptr, nullptr, nullptr, nullptr, nullptr}; static Intersect* I[5] = {nullptr, nullptr, nullptr, nullptr, nullptr};
+  if (ell < 0 || ell > 4) ell = 0;
+  if (!I[ell]) { G[ell] = new Geodesic(RA, LF[ell], ell > 0); I[ell] = new Intersect(*G[ell]); }
+  if (gp) *gp = G[ell];
+  return *I[ell];
+}
+
 static void replay() {
-  static Geodesic S(RA, 0); static Intersect I(S);
   string line;
   while (getline(cin, line)) {
     auto t = vt::split(line); if (t.empty()) continue;
@@ -675,9 +875,10 @@ static void replay() {
       vector<int> pts; for (int i = 0; i < I_(9); ++i) pts.push_back(I_(10 + i));
       nn_search_int(I_(1), I_(2), pts, I_(3), I_(4), I_(5), I_(6), I_(7) != 0, I_(8));
     } else if (t[0] == "ic" || t[0] == "ia" || t[0] == "in") {
-      // ic|ia|in  incA nodeA sA incB nodeB sB  latA lonA aziA latB lonB aziB  p0x p0y  maxd
+      // ic|ia|in  incA nodeA sA incB nodeB sB  latA lonA aziA latB lonB aziB  p0x p0y  maxd  ell
       double latA = I_(7), lonA = I_(8), aziA = I_(9), latB = I_(10), lonB = I_(11), aziB = I_(12); double p0x = I_(13), p0y = I_(14), maxd = I_(15);
-      Rec r; r.str("e", t[0]).li("A", {I_(1), I_(2), I_(3)}).li("B", {I_(4), I_(5), I_(6)}).li("p0", {I_(13), I_(14)}).i("maxd", I_(15));
+      int ell = I_(16); const Intersect& I = lattice_intersect(ell);
+      Rec r; r.str("e", t[0]).li("A", {I_(1), I_(2), I_(3)}).li("B", {I_(4), I_(5), I_(6)}).li("p0", {I_(13), I_(14)}).i("maxd", I_(15)).i("ell", ell);
       if (t[0] == "ic") {
         int c = -9; Intersect::Point p(0, 0); string out = guarded([&] { p = I.Closest(latA, lonA, aziA, latB, lonB, aziB, Intersect::Point(p0x, p0y), &c); });
         vector<ll> q; halfq(q, p.first); halfq(q, p.second); r.str("out", out).li("p", q).i("c", c);
@@ -687,6 +888,7 @@ static void replay() {
       } else if (t[0] == "in") {
         int c = -9; Intersect::Point p(0, 0); string out = guarded([&] { p = I.Next(latA, lonA, aziA, aziB, &c); });
         vector<ll> q; halfq(q, p.first); halfq(q, p.second); r.str("out", out).li("p", q).i("c", c);
+        vector<ll> lin; halfq(lin, p.second - c * p.first); r.li("lin", lin);
       } else {
         vector<int> cs; vector<Intersect::Point> all; string out = guarded([&] { all = I.All(latA, lonA, aziA, latB, lonB, aziB, maxd, cs, Intersect::Point(p0x, p0y)); });
         vector<vector<ll> > L; for (size_t i = 0; i < all.size(); ++i) { vector<ll> q; halfq(q, all[i].first); halfq(q, all[i].second); q.push_back(i < cs.size() ? cs[i] : -9); L.push_back(q); }
@@ -694,20 +896,109 @@ static void replay() {
       }
       r.emit();
     } else if (t[0] == "is") {
-      // is incA nodeA sA lenA incB nodeB sB lenB  latA1 lonA1 latA2 lonA2 latB1 lonB1 latB2 lonB2
+      // is incA nodeA sA lenA incB nodeB sB lenB  latA1 lonA1 latA2 lonA2 latB1 lonB1 latB2 lonB2  ell
       int segmode = -99, c = -9; Intersect::Point p(0, 0);
+      int ell = I_(17); const Intersect& I = lattice_intersect(ell);
       string out = guarded([&] { p = I.Segment(I_(9), I_(10), I_(11), I_(12), I_(13), I_(14), I_(15), I_(16), segmode, &c); });
       vector<ll> q; halfq(q, p.first); halfq(q, p.second);
-      Rec r; r.str("e", "is").li("A", {I_(1), I_(2), I_(3)}).i("lenA", I_(4)).li("B", {I_(5), I_(6), I_(7)}).i("lenB", I_(8)).str("out", out).li("p", q).i("c", c).i("segmode", segmode);
+      Rec r; r.str("e", "is").li("A", {I_(1), I_(2), I_(3)}).i("lenA", I_(4)).li("B", {I_(5), I_(6), I_(7)}).i("lenB", I_(8)).i("ell", ell).str("out", out).li("p", q).i("c", c).i("segmode", segmode);
+      r.emit();
+    } else if (t[0] == "nv") {
+      // nv ell lat lon azi cc : Next on one geodesic taken twice (cc = 1 parallel, -1 antiparallel) from the vertex (lat, lon), heading azi
+      int ell = I_(1), cc = I_(5); const Geodesic* gp = nullptr; const Intersect& I = lattice_intersect(ell, &gp);
+      double lat = I_(2), lon = I_(3), azi = I_(4), aziY = cc > 0 ? azi : azi + 180;
+      int c = -9; Intersect::Point p(0, 0); string out = guarded([&] { p = I.Next(lat, lon, azi, aziY, &c); });
+      vector<ll> q; halfq(q, p.first); halfq(q, p.second);
+      Rec r; r.str("e", "nv").i("ell", ell).i("lat", I_(2)).i("lon", I_(3)).i("azi", I_(4)).i("cc", cc).str("out", out).li("p", q).i("c", c);
+      // separation of the two points named by the answer (nm at WGS84 scale) and the spacing of doubles at the displacements
+      GeodesicLine lx = gp->Line(lat, lon, azi, Intersect::LineCaps), ly = gp->Line(lat, lon, aziY, Intersect::LineCaps);
+      double m = max(fabs(p.first), fabs(p.second));
+      Hit h = hit_raw(gp->EquatorialRadius(), gp->Flattening(), AW / RA, lx, ly, p.first, p.second);
+      r.i("z", h.z).i("sn", uq(h.sn, 1e-9L)).i("anti", h.anti ? 1 : 0).i("blin", uq(((LD)p.second - cc * (LD)p.first) * (AW / RA), 1e-9L));
+      ll um = std::isfinite(m) ? uq(((LD)std::nextafter(m, numeric_limits<double>::infinity()) - m) * (AW / RA), 1e-9L) : 0;
+      // known finding (from the inputs only): antiparallel, started at a vertex, exact solver (see rec_xn)
+      bool kfc = ell > 0 && cc < 0;
+      r.i("um", um).str("kf", kfc ? "int-next-anti-vertex-exact" : "none");
+      r.emit();
+      if (kfc) {   // the observations the finding does not touch, as a record of their own (no label)
+        Rec o; o.str("e", "nvo").i("ell", ell).i("lat", I_(2)).i("lon", I_(3)).i("azi", I_(4)).i("cc", cc).str("out", out).li("p", q).i("z", h.z).i("um", um).str("kf", "none");
+        o.emit();
+      }
+    }
+  }
+}
+
+// ================================================================== projection objects: replay of the histories of MC_ProjObject
+// [round(2 v), residual] with the residual in units of 1e-12 (pm / 1e-12 degree); rk: residual in 1e-15
+static string hq(double v) { vector<ll> o; halfq(o, v); return jl(o); }
+static string hrk(double v) {
+  if (!std::isfinite(v)) return "[2000000001,0]";
+  LD t = nearbyintl(2 * (LD)v); vector<ll> o; o.push_back((ll) t); o.push_back(sq((LD)v - t / 2, 1e-15L)); return jl(o);
+}
+static void replayobj() {
+  static Geodesic S(RA, 0);
+  AzimuthalEquidistant AZ(S); Gnomonic GN(S);                 // live for the whole replay, serve every centre
+  string line;
+  while (getline(cin, line)) {
+    auto t = vt::split(line); if (t.empty() || t[0] != "ph") continue;
+    size_t k = 1; auto nxt = [&]() { return k < t.size() ? atoi(t[k++].c_str()) : 0; };
+    int form = nxt(), nc = nxt(); vector<pair<int, int> > cen; for (int i = 0; i < nc; ++i) { int a = nxt(), b = nxt(); cen.push_back(make_pair(a, b)); }
+    auto pairs = [&]() { int n = nxt(); vector<pair<int, int> > v; for (int i = 0; i < n; ++i) { int a = nxt(), b = nxt(); v.push_back(make_pair(a, b)); } return v; };
+    auto fp = pairs(), rp = pairs(), ap = pairs(), aq = pairs();
+    // the history on ONE object
+    CassiniSoldner* P = nullptr; size_t first = 0;
+    auto state = [&](Rec& r) { r.b("init", P->Init());
+      if (P->Init()) r.raw("lat0", hq(P->LatitudeOrigin())).raw("lon0", hq(P->LongitudeOrigin())); else r.raw("lat0", "[0,0]").raw("lon0", "[0,0]"); };
+    { Rec r; r.str("e", "Reset").i("form", form);
+      if (form == 0) { P = new CassiniSoldner(S); r.li("o", {0, 0}); } else { P = new CassiniSoldner(cen[0].first, cen[0].second, S); first = 1; r.li("o", {cen[0].first, cen[0].second}); }
+      state(r); r.emit(); }
+    for (size_t i = first; i < cen.size(); ++i) { Rec r; r.str("e", "rs").li("o", {cen[i].first, cen[i].second}); string o = guarded([&] { P->Reset(cen[i].first, cen[i].second); }); r.str("out", o); state(r); r.emit(); }
+    bool init = !cen.empty(); int la0 = init ? cen.back().first : 0, lo0 = init ? cen.back().second : 0;
+    CassiniSoldner F(la0, lo0, S);                             // the freshly constructed object for the last centre
+    for (auto& p : fp) {
+      CsOut a = cs_fwd(*P, p.first, p.second), b = cs_fwd(F, p.first, p.second);
+      double xs = vt::sentinel(1), ys = vt::sentinel(2); string o1 = guarded([&] { P->Forward(p.first, p.second, xs, ys); });
+      Rec r; r.str("e", "pf").li("p", {p.first, p.second}).li("fo", {la0, lo0}).str("out", a.out).b("init", P->Init()).b("untouched", cs_untouched(a) && vt::is_sentinel(xs, 1) && vt::is_sentinel(ys, 2));
+      r.raw("x", hq(a.v[0])).raw("y", hq(a.v[1])).raw("azi", hq(a.v[2])).raw("rk", hrk(a.v[3])).b("fresh", cs_same(a, b)).b("ovl", o1 == a.out && sameb({a.v[0], a.v[1]}, {xs, ys}));
       r.emit();
     }
+    for (auto& q : rp) {
+      CsOut a = cs_rev(*P, q.first, q.second), b = cs_rev(F, q.first, q.second);
+      double ls = vt::sentinel(1), os = vt::sentinel(2); string o1 = guarded([&] { P->Reverse(q.first, q.second, ls, os); });
+      Rec r; r.str("e", "pr").li("q", {q.first, q.second}).li("fo", {la0, lo0}).str("out", a.out).b("init", P->Init()).b("untouched", cs_untouched(a) && vt::is_sentinel(ls, 1) && vt::is_sentinel(os, 2));
+      r.raw("lat", hq(a.v[0])).raw("lon", hq(a.v[1])).raw("azi", hq(a.v[2])).raw("rk", hrk(a.v[3])).b("fresh", cs_same(a, b)).b("ovl", o1 == a.out && sameb({a.v[0], a.v[1]}, {ls, os}));
+      r.emit();
+    }
+    // the stateless projections with the centre the history has reached: the long-lived objects against new ones
+    AzimuthalEquidistant AZ1(S); Gnomonic GN1(S);
+    for (auto& p : ap) {
+      { double x = vt::sentinel(1), y = vt::sentinel(2), azi = vt::sentinel(3), rk = vt::sentinel(4), x1 = x, y1 = y, a1 = azi, r1 = rk, xs = x, ys = y;
+        string out = guarded([&] { AZ.Forward(la0, lo0, p.first, p.second, x, y, azi, rk); });
+        guarded([&] { AZ1.Forward(la0, lo0, p.first, p.second, x1, y1, a1, r1); AZ.Forward(la0, lo0, p.first, p.second, xs, ys); });
+        Rec r; r.str("e", "af").li("o", {la0, lo0}).li("p", {p.first, p.second}).str("out", out).raw("x", hq(x)).raw("y", hq(y)).raw("azi", hq(azi));
+        r.b("lived", sameb({x, y, azi, rk}, {x1, y1, a1, r1})).b("ovl", sameb({x, y}, {xs, ys})); r.emit(); }
+      { double x = vt::sentinel(1), y = vt::sentinel(2), azi = vt::sentinel(3), rk = vt::sentinel(4), x1 = x, y1 = y, a1 = azi, r1 = rk, xs = x, ys = y;
+        string out = guarded([&] { GN.Forward(la0, lo0, p.first, p.second, x, y, azi, rk); });
+        guarded([&] { GN1.Forward(la0, lo0, p.first, p.second, x1, y1, a1, r1); GN.Forward(la0, lo0, p.first, p.second, xs, ys); });
+        Rec r; r.str("e", "gf").li("o", {la0, lo0}).li("p", {p.first, p.second}).str("out", out).b("nan", std::isnan(x) && std::isnan(y));
+        r.raw("tx", hq(x / RA)).raw("ty", hq(y / RA)).raw("azi", hq(azi)).raw("rk", hrk(rk));
+        r.b("lived", sameb({x, y, azi, rk}, {x1, y1, a1, r1})).b("ovl", sameb({x, y}, {xs, ys})); r.emit(); }
+    }
+    for (auto& q : aq) {
+      double la = 0, lo = 0, azi = 0, rk = 0, l1_ = 0, o1_ = 0, a1 = 0, r1 = 0, ls = 0, os = 0;
+      string out = guarded([&] { AZ.Reverse(la0, lo0, q.first, q.second, la, lo, azi, rk); });
+      guarded([&] { AZ1.Reverse(la0, lo0, q.first, q.second, l1_, o1_, a1, r1); AZ.Reverse(la0, lo0, q.first, q.second, ls, os); });
+      Rec r; r.str("e", "ar").li("o", {la0, lo0}).li("q", {q.first, q.second}).str("out", out).raw("lat", hq(la)).raw("lon", hq(lo)).raw("azi", hq(azi));
+      r.b("lived", sameb({la, lo, azi, rk}, {l1_, o1_, a1, r1})).b("ovl", sameb({la, lo}, {ls, os})); r.emit();
+    }
+    delete P;
   }
 }
 
 static void do_record(uint64_t seed, ll n) {
   vt::Rng g(seed);
   for (ll it = 0; it < n; ++it) {
-    switch (int(it % 16)) {
+    switch (int(it % 20)) {
       case 0: case 1: case 2: rec_az(g, it); break;
       case 3: case 4: case 5: rec_gn(g, it); break;
       case 6: case 7: case 8: rec_cs(g, it); break;
@@ -715,7 +1006,11 @@ static void do_record(uint64_t seed, ll n) {
       case 11: rec_xn(g, it); break;
       case 12: case 13: rec_xs(g, it); break;
       case 14: rec_xa(g, it); break;
-      default: rec_nn(g, it); break;
+      case 15: rec_nn(g, it); break;
+      case 16: rec_xn(g, it, true); break;
+      case 17: rec_xs(g, it, true); break;
+      case 18: rec_xc(g, it, true); break;
+      default: rec_cs(g, it); break;
     }
   }
 }
@@ -723,6 +1018,7 @@ static void do_record(uint64_t seed, ll n) {
 int main(int argc, char** argv) {
   vt::install_terminate();
   if (argc >= 2 && string(argv[1]) == "replay") { replay(); return 0; }
+  if (argc >= 2 && string(argv[1]) == "replayobj") { replayobj(); return 0; }
   if (argc >= 5 && string(argv[1]) == "record") g_dbg = atoll(argv[4]);
   if (argc >= 4 && string(argv[1]) == "record") { do_record(strtoull(argv[2], 0, 10), atoll(argv[3])); return 0; }
   fprintf(stderr, "usage: drv_constr replay < vectors | record seed n\n"); return 2;
